@@ -2691,6 +2691,22 @@ fn main() {
         "sweep" => {
             // bounded stand-in: every scenario of every family; report the labels of property <label> that some scenario violates
             let prefix = format!("{}.", label);
+            // a scenario that does not FINISH (a loader that loops for ever on the image a broken writer left, a handler that never returns) is a violation with that scenario as its
+            // witness, not a check that hangs: a watchdog reports it after VERIF_SCENARIO_LIMIT_S seconds (default 120; scenarios take milliseconds) and ends the process
+            let current: Arc<std::sync::Mutex<(String, std::time::Instant, usize)>> = Arc::new(std::sync::Mutex::new((String::new(), std::time::Instant::now(), 0)));
+            {
+                let cur = current.clone(); let prop = label.to_string();
+                let limit: u64 = std::env::var("VERIF_SCENARIO_LIMIT_S").ok().and_then(|x| x.parse().ok()).unwrap_or(120);
+                std::thread::spawn(move || loop {
+                    std::thread::sleep(std::time::Duration::from_secs(1));
+                    let (id, since, n) = { let g = cur.lock().unwrap(); (g.0.clone(), g.1, g.2) };
+                    if !id.is_empty() && since.elapsed().as_secs() >= limit {
+                        let esc = id.replace('\\', "\\\\").replace('"', "\\\"");
+                        println!("{{\"scenarios\":{},\"executed\":{},\"families\":{{}},\"hung\":true,\"violations\":[{{\"label\":\"{}.scenario-does-not-finish\",\"scenario\":\"{}\",\"all\":[\"{}\"]}}]}}", n, n, prop, esc, esc);
+                        std::process::exit(0);
+                    }
+                });
+            }
             let mut n = 0usize; let mut nontrivial = 0usize;
             let mut first: Vec<(String, String)> = vec![];
             let mut all: Vec<(String, Vec<String>)> = vec![];   // per violated label: every scenario that violates it (capped), so that a finding pinned to some scenarios does not hide the others
@@ -2702,6 +2718,7 @@ fn main() {
                 per_family.push((fam.to_string(), scs.len()));
                 for sc in scs {
                     n += 1;
+                    { let mut g = current.lock().unwrap(); *g = (format!("{}:{}", fam, sc), std::time::Instant::now(), n); }
                     if let Ok(v) = run(&sc) {
                         nontrivial += 1;
                         for l in v { if l.starts_with(&prefix) || (label == "C10" && l == "C10.safety") {
@@ -2712,6 +2729,7 @@ fn main() {
                     }
                 }
             }
+            { let mut g = current.lock().unwrap(); g.0 = String::new(); }
             let fams: Vec<String> = per_family.iter().map(|(f, c)| format!("\"{}\":{}", f, c)).collect();
             let esc = |s: &String| s.replace('\\', "\\\\").replace('"', "\\\"");
             let viol: Vec<String> = first.iter().map(|(l, s)| {
